@@ -131,13 +131,14 @@ ADDENDA = {
                 text=" R-POLY.jac (exact): the Jacobians of inverse, compose and act equal the derivatives that follow from the matrix realisation. R-SERIES.expjac/logjac: the Jacobian written by exp(J), resp. by log(J) at exp(t), equals sum (-ad)^k/(k+1)!, resp. sum B_k (-ad)^k/k!, through order 4 for the six groups (closed-form and small-angle worlds). R-SERIES.deriv (first principles, no theory table): for SO2 and SE2 every operation and for SO3 inverse / compose / between / act / exp / log / rminus (thorough: + rplus, lplus, lminus; SE3 inverse, between, act, exp) the Jacobian written by the code equals the eta-coefficient of f(.. (+) eta d ..) (-) f(..), eta^2 = 0, computed by interpreting the library's own code over truncated power series, through order 2 at the identity for a symbolic direction; every Jacobian is also requested alone.",
                 note=" The transcendental Jacobians are decided through order 4 (series) / order 2 (first principles) of their expansion at the origin only; rminus / lminus / log of SE3 and everything of SE_2_3 / SGal3 in R-SERIES.deriv are not attempted (cost).", design="3/C05, 10.5, 10.6, 10.8"),
     "C06": dict(technique="; exact adjoint (R-POLY.adj); power-series interpretation of rjac / ljac / rjacinv / ljacinv / Adj(exp t) (R-SERIES)",
-                text=" R-POLY.adj (exact): X.adj() e_i = vee(T(X) E_i T(X)^-1). R-SERIES: rjac, ljac, rjacinv, ljacinv equal their series in +-ad (Bernoulli numbers for the inverses; Eigen's inverse() of I + O(t) summarised by its Neumann series) and Adj(exp t) = sum ad^k/k!, through order 4 for the six groups, closed-form and small-angle worlds.",
+                text=" R-POLY.adj (exact): X.adj() e_i = vee(T(X) E_i T(X)^-1). R-SERIES: rjac, ljac, rjacinv, ljacinv equal their series in +-ad (Bernoulli numbers for the inverses; Eigen's inverse() of I + O(t) summarised by its Neumann series) and Adj(exp t) = sum ad^k/k!, through order 4 for the six groups, closed-form and small-angle worlds; a data-dependent isZero() test on input coefficients is evaluated in both input worlds.",
                 note=" The series identities are decided through order 4 only.", design="3/C06, 10.5, 10.6"),
     "C08": dict(text=" Producers include the planar casts (rebuild from the angle)."),
     "C13": dict(text=" R-MPT.funnel-last: in every constructor the validating step is the last access to the coefficient storage.", design="3/C13, 10.7"),
     "C15": dict(technique="; end points as identities of group terms (R-END, free-group reduction)",
                 text=" R-END: for SLERP, CUBIC and CNSMOOTH (degrees 1..4) the group term of the routine with the weights evaluated exactly at t = 0 / 1 reduces to A / B in the free group over {A, B, exp(v)} using associativity, X X^-1 = e, exp(0) = e, exp(-v) = exp(v)^-1, exp(log W) = W - for arbitrary end velocities and every group (96 identities).",
                 note_replace="A genuine defect found by R-END (interpolate_cubic returned B at t=0 and A at t=1) was repaired by a fix: commit. NOT decided: equivariance, interior values, rounding.", design="3/C15, 10.7"),
+    "C17": dict(text=" R-LIN.window: window t of the control-point loop nest takes trajectory[t*(degree-1)+n] (exact evaluation of the subscript for degree 2..6 with symbolic loop counters).", design="3/C17, 10.9"),
     "C16": dict(text=" R-ITER.fresh: nothing derived from the iterate before the max_iterations loop is read inside it without being recomputed in the same pass.", design="3/C16, 10.7"),
 }
 for _k, _a in ADDENDA.items():
